@@ -62,6 +62,49 @@ def parseTrace (trace : List TraceLine) (delay : Nat) : SimQueue :=
       { acc with sq := sq, recvW := w, recvMax := if m > acc.recvMax then m else acc.recvMax }) init
   { acc.sq with maxPps := some (max acc.sentMax acc.recvMax * Gen.SIM_PARSE_PPS_FACTOR) }
 
+/-- the direction tokens of a trace line that `parse_trace` accepts -/
+inductive Dir where
+  | s | sn | r | rn | sp | rp
+  deriving Repr, DecidableEq, Inhabited
+
+/-- a raw line of an input trace: time (ns) and direction token (the optional size column is
+    not read by the parser) -/
+structure RawLine where
+  time : Nat
+  dir : Dir
+  deriving Repr, DecidableEq, Inhabited
+
+/-- one step of the line loop of `parse_trace_advanced`: `"s" | "sn"` is a packet sent by the
+    client, `"r" | "rn"` one sent by the server a network delay earlier, `"sp" | "rp"` is ignored
+    (it neither queues anything nor enters the window counts) -/
+def parseLine (delay : Nat) (acc : ParseAcc) (l : RawLine) : ParseAcc :=
+  let ts : Int := l.time
+  match l.dir with
+  | .s | .sn =>
+    let sq := acc.sq.pushSim ⟨.normalSent, ts, true, false, false, false⟩
+    let (m, w) := acc.sentW.add ts
+    { acc with sq := sq, sentW := w, sentMax := if m > acc.sentMax then m else acc.sentMax }
+  | .r | .rn =>
+    let sq := acc.sq.pushSim ⟨.normalSent, ts - delay, false, false, false, false⟩
+    let (m, w) := acc.recvW.add ts
+    { acc with sq := sq, recvW := w, recvMax := if m > acc.recvMax then m else acc.recvMax }
+  | .sp | .rp => acc
+
+/-- `parse_trace(trace, network)` on raw lines with all six direction tokens -/
+def parseTraceRaw (trace : List RawLine) (delay : Nat) : SimQueue :=
+  let init : ParseAcc := ⟨SimQueue.empty, ⟨Gen.SIM_PARSE_WINDOW_NS, []⟩, ⟨Gen.SIM_PARSE_WINDOW_NS, []⟩, 0, 0⟩
+  let acc := trace.foldl (parseLine delay) init
+  { acc.sq with maxPps := some (max acc.sentMax acc.recvMax * Gen.SIM_PARSE_PPS_FACTOR) }
+
+/-- the normal packets of a raw trace: what `parse_trace` actually uses (padding lines dropped) -/
+def normalLines : List RawLine → List TraceLine
+  | [] => []
+  | l :: r =>
+    match l.dir with
+    | .s | .sn => (l.time, true) :: normalLines r
+    | .r | .rn => (l.time, false) :: normalLines r
+    | .sp | .rp => normalLines r
+
 /-! ### sim_advanced -/
 
 section
